@@ -41,3 +41,52 @@ func c08ClientData(c *Ctx) {
 		}
 	}
 }
+
+// c08 kind clientnames: the client's own decoder of NAME replies (ReadDir). A reply whose count field promises far more entries
+// than its bytes can hold (nothing, one or two whole entries behind it): an error or the entries that are there, never a crash,
+// and memory in proportion to the bytes received, not to the number the peer wrote into the count field.
+func c08ClientNames(c *Ctx) {
+	child, err := startChild("c20", 6000000)
+	if err != nil {
+		c.Diag("clientnames: cannot start child: %v", err)
+		return
+	}
+	defer func() { child.kill() }()
+	entry := func(name string) []byte {
+		return (&rb{}).str(name).str("-rw-r--r-- 1 0 0 0 Jan 1 1970 " + name).u32(0).b
+	}
+	for _, count := range []uint32{3, 1 << 10, 1 << 16, 1 << 20, 1 << 22, 1 << 24} {
+		for present := 0; present <= 2; present++ {
+			r := pkt(fxpName, 0).u32(count)
+			for i := 0; i < present; i++ {
+				r.raw(entry(fmt.Sprintf("n%d", i)))
+			}
+			reply := r.b
+			cn := c.Case("clientnames", kvx("count", uint64(count)), kvi("present", present))
+			c.NT(cn)
+			c.Stat("clientnames_cases")
+			ans, alive := child.ask("readdir "+hexs(reply), 25*time.Second)
+			var alloc uint64
+			for _, f := range strings.Fields(ans) {
+				if strings.HasPrefix(f, "alloc=") {
+					fmt.Sscanf(f[6:], "%d", &alloc)
+				}
+			}
+			switch {
+			case !alive:
+				child.kill()
+				child, _ = startChild("c20", 6000000)
+				c.Oracle(cn, false, fmt.Sprintf("client process crashed or hung: ReadDir answered with a NAME reply of count %d carrying %d entries", count, present))
+			case strings.Contains(ans, "res=hang") || strings.Contains(ans, "close=hang"):
+				c.Oracle(cn, false, "operation or Close did not return: "+ans)
+			case alloc > 64*uint64(len(reply))+3000000:
+				c.Oracle(cn, false, fmt.Sprintf("count-driven-allocation: ReadDir allocated %d bytes for a %d-byte NAME reply whose count field says %d", alloc, len(reply), count))
+			default:
+				c.Oracle(cn, true, "")
+			}
+			if child == nil {
+				return
+			}
+		}
+	}
+}
